@@ -62,6 +62,7 @@ theorem invP_step (s : State) (op : Op) (h : InvP s) : InvP (step s op) := by
   constructor
   cases op with
   | tick d => exact h.conns
+  | tickApp d => exact h.conns
   | arrive => exact h.conns
   | serviceConnects =>
     intro c hc
@@ -122,6 +123,7 @@ theorem invT_step (s : State) (op : Op) (hr : refreshes s = true) (hp : InvP s) 
   | tick d =>
     exact ⟨fun c hc => let ⟨a, b, c'⟩ := h.conns c hc; ⟨a, b, Nat.le_trans c' (Nat.le_add_right _ _)⟩, h.log⟩
   | arrive => exact ⟨h.conns, h.log⟩
+  | tickApp d => exact ⟨h.conns, h.log⟩
   | serviceConnects =>
     have hall : ∀ c ∈ s.conns ++ s.pending.map (newConn s.T s.now), ConnT s.T s.now c ∧ ConnP c := by
       intro c hc
